@@ -197,6 +197,8 @@ class Fn:
                     return e_
         if t.startswith("Opt:"):
             return "none"
+        if t in ("Str", "Bytes") or t.startswith("List:"):
+            return "[]"
         raise NotTranslatable(f"no default value of type {t}")
 
     def struct_attr(self, e, t, attr):
@@ -367,7 +369,35 @@ class Fn:
             return self.call(node, env)
         if isinstance(node, ast.Subscript):
             return self.subscript(node, env)
+        if isinstance(node, ast.JoinedStr):
+            parts = []
+            for v in node.values:
+                if isinstance(v, ast.Constant) and isinstance(v.value, str):
+                    if v.value:
+                        parts.append(const_to_lean(v.value)[0])
+                elif isinstance(v, ast.FormattedValue) and v.conversion == -1 and v.format_spec is None:
+                    parts.append(self.to_str(v.value, env))
+                else:
+                    raise NotTranslatable("f-string with a conversion or format spec")
+            return ("(" + " ++ ".join(parts) + ")" if parts else '("".toList)', "Str")
         raise NotTranslatable(f"expression {type(node).__name__}")
+
+    def to_str(self, node, env):
+        """`str(x)` as it appears in an f-string / `format` argument: decimal digits of a natural, a string itself"""
+        if isinstance(node, ast.IfExp):
+            self.no_raise += 1
+            try:
+                a = self.to_str(node.body, env)
+                b = self.to_str(node.orelse, env)
+            finally:
+                self.no_raise -= 1
+            return f"(if {self.cond(node.test, env)} then {a} else {b})"
+        e, t = self.expr(node, env)
+        if t == "Str":
+            return e
+        if is_nat_ty(t):
+            return f"(natStr {par(e)})"
+        raise NotTranslatable(f"str() of a value of type {t}")
 
     def nat_index(self, node, env):
         e, t = self.expr(node, env)
@@ -393,6 +423,12 @@ class Fn:
         base, tb = self.expr(node.value, env)
         if tb.startswith("DictConst:") and not isinstance(node.slice, ast.Slice):
             d = self.consts[tb[10:]]
+            try:
+                kv = eval(compile(ast.Expression(node.slice), "<key>", "eval"), self.glob)  # noqa: S307
+                if kv in d:
+                    return const_to_lean(d[kv])
+            except Exception:
+                pass
             k, tk = self.expr(node.slice, env)
             vals = [const_to_lean(v) for v in d.values()]
             vt = vals[0][1] if vals else "Int"
@@ -687,7 +723,8 @@ class Fn:
         if isinstance(op, (ast.Is, ast.IsNot)):
             if b == "none":
                 if not ta.startswith("Opt:"):
-                    raise NotTranslatable("`is None` on a non-optional")
+                    # a value the binding table declares non-optional is never None
+                    return "false" if isinstance(op, ast.Is) else "true"
                 return f"(Option.isNone {par(a)})" if isinstance(op, ast.Is) else f"(Option.isSome {par(a)})"
             raise NotTranslatable("`is` on values")
         if isinstance(op, (ast.In, ast.NotIn)) and ta in ("Bytes", "Opt:Bytes") and tb in ("Bytes", "Opt:Bytes"):
@@ -743,7 +780,7 @@ class Fn:
             recv_node = node.func.value
             meth = node.func.attr
             rd = dotted(recv_node)
-            if meth in ("endswith", "startswith", "partition", "split", "get", "join"):
+            if meth in ("endswith", "startswith", "partition", "split", "get", "join", "format"):
                 try:
                     re_, rt = self.expr(recv_node, env)
                 except NotTranslatable:
@@ -761,6 +798,56 @@ class Fn:
                     xe, xt = self.expr(args[0], env)
                     if xt == "Str":
                         return (f"({fn_l} {par(re_)} {par(xe)})", "Bool")
+                if rt == "Str" and meth == "format" and not args and len(kw) == 1 and isinstance(recv_node, (ast.Subscript, ast.Constant, ast.Name, ast.Attribute)):
+                    # a constant template with exactly one `{name}` placeholder
+                    tmpl = None
+                    try:
+                        tmpl = eval(compile(ast.Expression(recv_node), "<tmpl>", "eval"), self.glob)  # noqa: S307
+                    except Exception:
+                        tmpl = None
+                    (kname, knode), = kw.items()
+                    ph = "{" + kname + "}"
+                    if isinstance(tmpl, str) and tmpl.count("{") == 1 and tmpl.count("}") == 1 and ph in tmpl:
+                        pre, post = tmpl.split(ph)
+                        parts = ([const_to_lean(pre)[0]] if pre else []) + [self.to_str(knode, env)] + ([const_to_lean(post)[0]] if post else [])
+                        return ("(" + " ++ ".join(parts) + ")", "Str")
+                    raise NotTranslatable("format on a template that is not a constant with one placeholder")
+                if rt == "Str" and meth == "join" and len(args) == 1 and not kw and isinstance(args[0], ast.GeneratorExp) and len(args[0].generators) == 1:
+                    g = args[0]
+                    gen = g.generators[0]
+                    # (a) over the items of a constant dict, with a filter: the pieces that pass, in table order
+                    if (isinstance(gen.iter, ast.Call) and isinstance(gen.iter.func, ast.Attribute) and gen.iter.func.attr == "items" and not gen.iter.args
+                            and isinstance(gen.target, ast.Tuple) and len(gen.target.elts) == 2):
+                        de, dt = self.expr(gen.iter.func.value, env)
+                        if dt.startswith("DictConst:"):
+                            d = self.consts[dt[10:]]
+                            pieces = []
+                            for kk, vv in d.items():
+                                env2 = dict(env)
+                                env2[gen.target.elts[0].id] = const_to_lean(kk)
+                                env2[gen.target.elts[1].id] = const_to_lean(vv)
+                                xe, xt = self.expr(g.elt, env2)
+                                if xt != "Str":
+                                    raise NotTranslatable("join of non-strings")
+                                c = " && ".join(self.cond(cnd, env2) for cnd in gen.ifs) or "true"
+                                pieces.append(f"(if {c} then [{xe}] else [])")
+                            return (f"(List.intercalate {par(re_)} (List.flatten [" + ", ".join(pieces) + "]))", "Str")
+                    # (b) over a run-time list
+                    if isinstance(gen.target, ast.Name) and not gen.ifs:
+                        it, tit = self.expr(gen.iter, env)
+                        if tit.startswith("List:"):
+                            v = self.lean_name(gen.target.id)
+                            env2 = dict(env)
+                            env2[gen.target.id] = (v, tit[5:])
+                            self.no_raise += 1
+                            try:
+                                xe, xt = self.expr(g.elt, env2)
+                            finally:
+                                self.no_raise -= 1
+                            if xt != "Str":
+                                raise NotTranslatable("join of non-strings")
+                            return (f"(List.intercalate {par(re_)} (List.map (fun {v} => {xe}) {par(it)}))", "Str")
+                    raise NotTranslatable("join over this generator")
                 if rt == "Str" and meth == "join" and len(args) == 1 and not kw and isinstance(args[0], (ast.Tuple, ast.List)):
                     items = []
                     for x in args[0].elts:
@@ -776,6 +863,19 @@ class Fn:
                             return (f"(partition '{ch}' {par(re_)})", "Tuple:Str,Bool,Str")
                         return (f"(split '{ch}' {par(re_)})", "List:Str")
                     raise NotTranslatable(f"{meth} with a separator that is not one printable character")
+                if rt is not None and rt.startswith("DictConst:") and meth == "get" and len(args) == 2 and not kw:
+                    d = self.consts[rt[10:]]
+                    k, tk = self.expr(args[0], env)
+                    dflt, tdf = self.expr(args[1], env)
+                    vals = [const_to_lean(v) for v in d.values()]
+                    if any(v[1] != tdf for v in vals):
+                        raise NotTranslatable("dict values and default of different types")
+                    out = dflt
+                    for kk, (ve, _) in reversed(list(zip(d.keys(), vals))):
+                        ke, kt = const_to_lean(kk)
+                        c = self.compare(ast.Eq(), (k, tk), (ke, kt))
+                        out = f"(if {c} then {ve} else {out})"
+                    return (out, tdf)
                 if rt is not None and rt.startswith("DictConst:") and meth == "get" and len(args) == 1 and not kw:
                     d = self.consts[rt[10:]]
                     k, tk = self.expr(args[0], env)
